@@ -10,7 +10,7 @@ What is abstracted (see notes/C19.md):
 * `immutables.Map` is an association list in insertion order; `frozenset` is a
   duplicate-free list in insertion order (Python's hash order is not modelled:
   the harness sorts, and passes the real order in where it shows up in text);
-* object types have no inheritance and no nested object fields; `secret` and
+* no nested object fields; type inheritance is a chain of ancestors (name + fields); `secret` and
   `protected` are always false; the GLOBAL scope is not modelled;
 * `json.dumps / json.loads` are not modelled: "JSON" is the tree `JV`;
 * input values are JSON-like trees (`JV`): no floats, bytes, tuples;
@@ -98,10 +98,19 @@ structure Field where
   default : Option FVal := none
 deriving DecidableEq, Repr
 
-/-- `ConfigTypeSpec` (no parent / children). -/
+/-- name and fields of one type of the hierarchy -/
+structure TBase where
+  name : String
+  fields : List Field
+deriving DecidableEq, Repr
+
+/-- `ConfigTypeSpec`: own name and fields (a subtype's `fields` contain the
+    inherited ones, as `object_type_to_spec` builds them) and the chain of
+    `parent`s, nearest first.  (`children` is only used for registration.) -/
 structure TSpec where
   name : String
   fields : List Field
+  ancestors : List TBase := []
 deriving DecidableEq, Repr
 
 /-- `CompositeConfigType` instance: `_tspec` and the attributes in field order. -/
@@ -125,9 +134,11 @@ structure Setting where
   default : Val
 deriving DecidableEq, Repr
 
-/-- `FlatSpec` -/
+/-- `FlatSpec`: the settings and `_types_by_name` (every object type of a
+    setting with all its descendants, in registration order) -/
 structure Spec where
   settings : List Setting
+  types : List TSpec := []
 deriving Repr
 
 /-- `spec[name]` (dict built by comprehension: the last setting with a name wins). -/
@@ -136,8 +147,7 @@ def Spec.get (sp : Spec) (n : String) : Option Setting :=
 
 /-- `spec.get_type_by_name` : `none` = `KeyError`. -/
 def Spec.getType (sp : Spec) (n : String) : Option TSpec :=
-  (sp.settings.reverse.filterMap fun s => match s.ty with | .obj t => some t | _ => none).find?
-    (·.name == n)
+  sp.types.reverse.find? (·.name == n)
 
 /-- `SettingValue` (the `secret` flag is constantly false here). -/
 structure SV where
@@ -182,6 +192,23 @@ def FVal.pyEq : FVal → FVal → Bool
   | _, _ => false
 
 def Obj.getattr (o : Obj) (k : String) : Option FVal := (o.vals.find? (·.1 == k)).map (·.2)
+
+/-- is field `k` declared unique in this type of the chain? -/
+def fieldUniqueIn (fields : List Field) (k : String) : Bool :=
+  match fields.find? (·.name == k) with
+  | some f => f.unique
+  | none => false
+
+/-- the `while typ:` loop of `get_field_unique_site` over the remaining chain:
+    every type on which the field is unique overwrites `site` -/
+def siteWalk (k : String) : List TBase → Option String → Option String
+  | [], site => site
+  | b :: r, site => siteWalk k r (if fieldUniqueIn b.fields k then some b.name else site)
+
+/-- `CompositeTypeSpec.get_field_unique_site(name)` (its `.name`): the top-most
+    type of the chain self, parent, grand-parent, … on which the field is unique -/
+def TSpec.uniqueSite (t : TSpec) (k : String) : Option String :=
+  siteWalk k ({ name := t.name, fields := t.fields } :: t.ancestors) none
 
 /-- `_compare_keys` -/
 def TSpec.compareKeys (t : TSpec) : List String := (t.fields.filter (·.unique)).map (·.name)
@@ -395,20 +422,31 @@ abbrev Excl := List (String × String × FVal)
 def exclHas (ex : Excl) (tn fn : String) (v : FVal) : Bool :=
   ex.any fun e => e.1 == tn && e.2.1 == fn && e.2.2.pyEq v
 
-/-- the inner `for name in tspec.fields` loop for one object (only unique
-    fields do anything; they come in field order = `compareKeys`). -/
+/-- what the exclusivity loop records for field `k` of an object:
+    `(site.name, k, value)` when the value is not `None` and the field is
+    exclusive on some type up the hierarchy (`site` = the top-most such type) -/
+def Obj.exclEntry (o : Obj) (k : String) : Option (String × String × FVal) :=
+  match o.getattr k with
+  | none | some (.sc .none) => none                        -- getattr(..., None) is None
+  | some v =>
+    match o.tspec.uniqueSite k with
+    | none => none
+    | some site => some (site, k, v)
+
+/-- the inner `for name in tspec.fields` loop for one object: each entry is
+    recorded under `(site.name, name)` and must not have been seen there. -/
 def exclStep (o : Obj) : List String → Excl → Except Err Excl
   | [], ex => .ok ex
   | k :: r, ex =>
-    match o.getattr k with
-    | none | some (.sc .none) => exclStep o r ex           -- getattr(..., None) is None
-    | some v =>
-      if exclHas ex o.tspec.name k v then .error .constraintViolation
-      else exclStep o r ((o.tspec.name, k, v) :: ex)
+    match o.exclEntry k with
+    | none => exclStep o r ex
+    | some e =>
+      if exclHas ex e.1 e.2.1 e.2.2 then .error .constraintViolation
+      else exclStep o r (e :: ex)
 
 /-- one iteration of the outer loop -/
 def uniqStep (acc : List Obj × Excl) (o : Obj) : Except Err (List Obj × Excl) :=
-  match exclStep o o.tspec.compareKeys acc.2 with
+  match exclStep o (o.tspec.fields.map (·.name)) acc.2 with
   | .error e => .error e
   | .ok ex =>
     if acc.1.any (·.pyEq o) then .error .constraintViolation
